@@ -393,6 +393,7 @@ def check(chk):
     chk.expect(n_st >= 3, "C04: stores to the entrance counter lost (%d)" % n_st)
     _snapshots_and_jam(chk, repo)
     _eject_outcome_and_give_up(chk, repo)
+    _claims_move_in_pairs(chk, repo)
 
 
 def _snapshots_and_jam(chk, repo):
@@ -502,6 +503,33 @@ def _eject_outcome_and_give_up(chk, repo):
     cl = [c for c in g.calls() if call_attr(c) == "_compensate_lost_balls"]
     ok = len(cl) == 1 and isinstance(v, ast.Name) and [src(a) for a in cl[0].args] == [v.id]
     chk.ob("GIVEUP-4", "the same number is compensated (replacement balls)", ok, g.where(), construct=g.ident, text="give up compensation")
+
+
+def _claims_move_in_pairs(chk, repo):
+    """CLAIM-4: `available_balls` is the number of balls of a device nobody has claimed yet.  When a ball device hands one of its own
+    unclaimed balls to another device's pool (`<target>.available_balls += 1`), it takes it out of its own (`self.available_balls -= 1`)
+    on every path through that function: the ball is unclaimed in one place.  A device that keeps offering a ball it no longer holds
+    is chosen as source of the next request and waits for ever for a ball (sibling: lost_idle_ball takes the ball out of its pool)."""
+    bd = repo.cls(BD, "BallDevice")
+    n = 0
+    for m in bd.methods.values():
+        cfg = None
+        for x in walk_local(m.node):
+            if not (isinstance(x, ast.AugAssign) and isinstance(x.op, ast.Add) and isinstance(x.target, ast.Attribute) and x.target.attr == "available_balls" and
+                    src(x.target.value) != "self" and const_value(x.value) == 1):
+                continue
+            cfg = cfg or m.cfg()
+            n += 1
+            chk.analysed(m)
+            here = [q for q in cfg.nodes if q.kind == "stmt" and q.ast is x]
+            own = [q.id for q in cfg.nodes if q.kind == "stmt" and isinstance(q.ast, ast.AugAssign) and isinstance(q.ast.op, ast.Sub) and
+                   src(q.ast.target) == "self.available_balls" and const_value(q.ast.value) == 1]
+            ok = bool(here) and bool(own) and (any(cfg.dominates(o, here[0].id) for o in own) or
+                                               cfg.must_pass(here[0].id, own, ends=[cfg.exit.id]) is None)
+            chk.ob("CLAIM-4", "BallDevice.%s: a ball put into `%s`'s unclaimed pool is taken out of the device's own pool on the same path" % (m.name, src(x.target.value)),
+                   ok, m.where(x), detail="the device keeps offering a ball it no longer holds: the next request picks it as source and waits for ever",
+                   construct=m.ident, text="unpaired available_balls transfer in " + m.name)
+    chk.ob("CLAIM-4", "transfers between unclaimed pools examined (%d)" % n, n >= 2, BD + ":1", nontrivial=False)
 
 
 def battery():
